@@ -262,7 +262,15 @@ fn boundedness(v: &V, wave: Wave, l: usize, seed: u64, out: &mut TrialOut) {
 
 fn fading(v: &V, seed: u64, out: &mut TrialOut, rng: &mut Rng) {
     let cell = format!("{}/fading", v.name);
-    let s = settle_of(v);
+    // a third of the trials gives one prefix a large magnitude (bounded all the same): whatever
+    // it leaves behind must die out as well.  The settle length grows with the attenuation needed:
+    // 1e-12 relative to the *head* instead of the tail
+    let head: f64 = if rng.chance(1, 3) { *rng.pick(&[1048576.0, 1073741824.0, 8589934592.0]) } else { 1.0 };
+    let s0 = settle_of(v);
+    let s = v.n + (((s0 - v.n.min(s0)) as f64) * (1.0 + head.ln() / (1e12f64).ln())).ceil() as usize;
+    if head > 1.0 {
+        out.count("fading_trials_with_large_magnitude_prefix", 1);
+    }
     let tail_len = s + s / 2 + 200;
     let (p1, p2) = (rng.usize(0, 450), rng.usize(1, 450));
     let (Ok(mut a), Ok(mut b)) = (guarded(|| build_plain::<f64>(&v.spec)), guarded(|| build_plain::<f64>(&v.spec))) else {
@@ -275,7 +283,7 @@ fn fading(v: &V, seed: u64, out: &mut TrialOut, rng: &mut Rng) {
     let scale1 = *rng.pick(&[1.0, 0.25, 1.0]);
     let ok = guarded(|| {
         for t in 0..p1 {
-            a.update(scale1 * bounded_input(w1, t, &mut s1));
+            a.update(head * scale1 * bounded_input(w1, t, &mut s1));
         }
         for t in 0..p2 {
             b.update(-bounded_input(w2, t, &mut s2));
@@ -427,7 +435,7 @@ impl Monitor for C09 {
         v
     }
     fn rule(&self) -> String {
-        "trial = (one of the nine recursive views with parameter grid; N from the minimum, all of 1..9 always, to 64 (+100, 1000 in thorough); clause). bounded: input in [-1,1] from {LCG noise, square waves with half-period 1..4N incl. the resonance region, impulse, step, alternating}, every output of runs of L, 4L, 16L updates (L = 1e4 quick) finite and inside a bound computed from the reference model that does not depend on the run length. fading: two instances, different bounded prefixes of 0..450 values, common noise tail; from S steps after the merge (S from the reference pole radius) outputs agree to 1e-6. Chains of two linear recursive views against the product of their reference bounds. distinct = distinct (view+parameters, clause, seed)".into()
+        "trial = (one of the nine recursive views with parameter grid; N from the minimum, all of 1..9 always, to 64 (+100, 1000 in thorough); clause). bounded: input in [-1,1] from {LCG noise, square waves with half-period 1..4N incl. the resonance region, impulse, step, alternating}, every output of runs of L, 4L, 16L updates (L = 1e4 quick) finite and inside a bound computed from the reference model that does not depend on the run length. fading: two instances, different bounded prefixes of 0..450 values (a third of them 2^20..2^33 times larger than the tail, with the settle length extended accordingly), common noise tail; from S steps after the merge (S from the reference pole radius) outputs agree to 1e-6. Chains of two linear recursive views against the product of their reference bounds. distinct = distinct (view+parameters, clause, seed)".into()
     }
     fn assumptions(&self) -> Vec<String> {
         vec![
